@@ -254,40 +254,66 @@ Theorem C17_legal_reported_once :
 Proof. exact legal_reported_once. Qed.
 Print Assumptions C17_legal_reported_once.
 
-(* ---- both components end to end (Model.e2e_step; variant Repaired = /repo HEAD since 94649ad) ----
-   Hypothesis no_repadr: no PADR for a tuple while a PPPoE session of that tuple is live (several
-   PPPoE sessions of one host are not a mixed-access matter; handlePADR creates them, see notes).
-   After every DISCOVER / PADR of such a history: every tuple has no session at all, or exactly the
-   sessions of ONE protocol whose newest session is the registry owner; and the session created by
-   the last operation is live and owns its tuple (the newer claim displaces, and survives). *)
+(* ---- both components end to end (Model.e2e_step) ----
+   Variant Repaired = all recorded repairs: 94649ad (in /repo), and the two repairs still proposed
+   (fixes/C17_ipoe_request_solicit_never_claim.patch, fixes/C17_pppoe_superseded_session_survives.patch).
+   For EVERY history of DISCOVER / REQUEST / SOLICIT / PADR (replayed PADRs included, no hypothesis):
+   after every operation every tuple has no session at all or exactly ONE live session over both
+   components, which is the registry owner; and the session the last operation created (or found, for
+   an IPoE packet of an existing IPoE session) is that session: the newer claim displaces, and survives. *)
 Theorem C17_e2e_newest_survives :
   forall ops o,
-    no_repadr Repaired world0 (ops ++ [o]) = true ->
-    let w := e2e_run Repaired world0 ops in
-    let w' := e2e_step Repaired w o in
+    let w' := e2e_step Repaired (e2e_run Repaired world0 ops) o in
     (forall k, e2e_snapshot w' k = (0%nat, 0%nat, None) \/
                e2e_snapshot w' k = (1%nat, 0%nat, Some proto_ipoe) \/
-               (exists n, e2e_snapshot w' k = (0%nat, S n, Some proto_pppoe))) /\
+               e2e_snapshot w' k = (0%nat, 1%nat, Some proto_pppoe)) /\
     match o with
-    | EDiscover k => e2e_snapshot w' k = (1%nat, 0%nat, Some proto_ipoe)
+    | EDiscover k | ERequest k | ESolicit k => e2e_snapshot w' k = (1%nat, 0%nat, Some proto_ipoe)
     | EPadr k => e2e_snapshot w' k = (0%nat, 1%nat, Some proto_pppoe)
     end.
 Proof. exact e2e_newest_survives. Qed.
 Print Assumptions C17_e2e_newest_survives.
 
-(* Historical witness (fixed in /repo 94649ad; KNOWN_FINDINGS fixed: eviction-kills-displacing-session).
-   Variant Defective = the code before that commit: a terminate event resolved to whatever session
-   sat on the tuple, in the publishing component its own new session.  After IPoE-then-PPPoE and
-   after PPPoE-then-IPoE on one tuple NO session was left and the tuple unowned; Repaired keeps the
-   newest.  The correspondence no longer accepts the Defective behaviour. *)
+(* KNOWN (signature ipoe-session-without-claim): /repo sets MixedAccess only in handleDiscover.  An IPoE
+   session created by DHCPREQUEST or DHCPv6 SOLICIT never claims its tuple: it owns nothing and shares
+   the tuple with a PPPoE session, whichever came first. *)
+Theorem C17_e2e_exclusive_refuted_unclaimed_paths :
+  e2e_snapshot (e2e_run NoClaimOnRequestSolicit world0 [ERequest e2e_k]) e2e_k = (1%nat, 0%nat, None) /\
+  e2e_snapshot (e2e_run NoClaimOnRequestSolicit world0 [ERequest e2e_k; EPadr e2e_k]) e2e_k = (1%nat, 1%nat, Some proto_pppoe) /\
+  e2e_snapshot (e2e_run NoClaimOnRequestSolicit world0 [ESolicit e2e_k; EPadr e2e_k]) e2e_k = (1%nat, 1%nat, Some proto_pppoe) /\
+  e2e_snapshot (e2e_run NoClaimOnRequestSolicit world0 [EPadr e2e_k; ERequest e2e_k]) e2e_k = (1%nat, 1%nat, Some proto_pppoe) /\
+  e2e_snapshot (e2e_run NoClaimOnRequestSolicit world0 [EPadr e2e_k; ESolicit e2e_k]) e2e_k = (1%nat, 1%nat, Some proto_pppoe).
+Proof. exact e2e_unclaimed_paths_witness. Qed.
+Print Assumptions C17_e2e_exclusive_refuted_unclaimed_paths.
+
+(* KNOWN (signature pppoe-superseded-session-survives): the PPPoE session displaced by a replayed PADR
+   is reported by the registry and ignored by addToIndexes; it stays alive without the tuple, and after
+   an IPoE takeover an IPoE and a PPPoE session are live on one tuple. *)
+Theorem C17_e2e_exclusive_refuted_superseded :
+  e2e_snapshot (e2e_run SupersededSurvives world0 [EPadr e2e_k; EPadr e2e_k]) e2e_k = (0%nat, 2%nat, Some proto_pppoe) /\
+  e2e_snapshot (e2e_run SupersededSurvives world0 [EPadr e2e_k; EPadr e2e_k; EDiscover e2e_k]) e2e_k = (1%nat, 1%nat, Some proto_ipoe).
+Proof. exact e2e_superseded_witness. Qed.
+Print Assumptions C17_e2e_exclusive_refuted_superseded.
+
+(* Historical witness (fixed in /repo 94649ad, signature eviction-kills-displacing-session): a terminate
+   event resolved to whatever session sat on the tuple, in the publishing component its own new
+   session; after a cross-protocol takeover NO session was left. *)
 Theorem C17_e2e_newest_survives_refuted :
   e2e_snapshot (e2e_run Defective world0 [EDiscover e2e_k; EPadr e2e_k]) e2e_k = (0%nat, 0%nat, None) /\
-  e2e_snapshot (e2e_run Defective world0 [EPadr e2e_k; EDiscover e2e_k]) e2e_k = (0%nat, 0%nat, None) /\
-  e2e_snapshot (e2e_run Repaired world0 [EDiscover e2e_k; EPadr e2e_k]) e2e_k = (0%nat, 1%nat, Some proto_pppoe) /\
-  e2e_snapshot (e2e_run Repaired world0 [EPadr e2e_k; EDiscover e2e_k]) e2e_k = (1%nat, 0%nat, Some proto_ipoe) /\
-  no_repadr Repaired world0 [EDiscover e2e_k; EPadr e2e_k; EDiscover e2e_k; EPadr e2e_k] = true.
+  e2e_snapshot (e2e_run Defective world0 [EPadr e2e_k; EDiscover e2e_k]) e2e_k = (0%nat, 0%nat, None).
 Proof. exact e2e_defective_witness. Qed.
 Print Assumptions C17_e2e_newest_survives_refuted.
+
+(* the repaired pppoe call site names every session its claim displaced, exactly once *)
+Theorem C17_pppoe_site_reports_every_displaced :
+  forall self r k sid,
+    snd (component_claim_any self r k sid) =
+    match lookup r k with
+    | Some prev => if same_id prev (mkOwner self sid k) then [] else [o_sid prev]
+    | None => []
+    end.
+Proof. exact component_claim_any_events. Qed.
+Print Assumptions C17_pppoe_site_reports_every_displaced.
 
 (* ---- non-vacuity ---- *)
 Definition k1 : key := mkKey 100 10 [2; 170; 187; 204; 0; 1]%N.
